@@ -18,6 +18,7 @@ namespace vh
         std::vector<long> begin, end, thread_of, calls;
         std::vector<long> out;
         const void* impl = nullptr;
+        long kexp = -1000;  // what every node data must carry (the default when there is no init hook)
         std::function<long(size_t, const std::vector<long>&)> compute;  // node -> value from outputs
     };
 
@@ -27,6 +28,7 @@ namespace vh
         long value = 0;
         long b = 0, e = 0;
         long thread = 0;
+        long k = -1000;  // kernel-wide scalar, delivered through node_data_init when that hook is set
         kernel_shared* sh = nullptr;
     };
 
@@ -71,7 +73,8 @@ namespace vh
                 if (tl_thread == 0)
                     tl_thread = ++thread_ids;
                 nd->b = nd->sh->seq.fetch_add(1);
-                nd->value = nd->sh->compute(nd->idx, nd->sh->out);
+                // the kernel-wide scalar must have reached this worker's node data (k == kexp)
+                nd->value = nd->sh->compute(nd->idx, nd->sh->out) + (nd->k - nd->sh->kexp);
                 nd->thread = tl_thread;
                 nd->e = nd->sh->seq.fetch_add(1);
                 return 0;
@@ -96,6 +99,12 @@ namespace vh
             };
             k.node_data_create = []() -> void* { return new kernel_node(); };
             k.node_data_init = nullptr;
+            if (s.get_int("init", 0))
+            {
+                sh.kexp = 5;
+                k.node_data_init = [](void* p, void* data)
+                { static_cast<kernel_node*>(p)->k = static_cast<kernel_shared*>(data)->kexp; };
+            }
             k.node_data_free = [](void* p) { delete static_cast<kernel_node*>(p); };
             k.n_threads = nthreads;
             k.min_block_size = static_cast<int>(s.get_int("minblock", 0));
